@@ -172,6 +172,8 @@ def gen_one(rng, nops, maxlive, hot_n, big=False):
         a = fresh()
         emit([":a", tz(a), tz(size()), tz(rng.randrange(3)), tz(rng.randrange(6)), tz(rng.choice([0, 1, 7, 0x7b, 0x3e8, 0xffff]))])
 
+    if rng.random() < 0.8:     # a fresh detector is disabled: most histories switch accounting on first
+        emit([rng.choice([":en", ":start", ":start"])])
     for _ in range(nops):
         c = rng.random()
         nl = len(sim.live)
@@ -253,7 +255,7 @@ def gen_one(rng, nops, maxlive, hot_n, big=False):
 
 def generate(tier, rng):
     out = []
-    n = 700 if tier == "quick" else 40000
+    n = 2500 if tier == "quick" else 60000
     for i in range(n):
         c = rng.random()
         if c < 0.35:
